@@ -54,7 +54,7 @@ def _combine(*zs):
 def zone(t, s):
     t = t.upper()
     if s == "":
-        return "u"        # the method documents (asserts) non-empty input
+        return "reject"   # a FIX field value is never empty: outside every lexical space (rejected with the message error since repo fix 8d5ee8a)
     if t in ("DATA", "LENGTH"):
         return "u"
     if SOH in s:
